@@ -359,10 +359,19 @@ def run(tier, seed):
                 rep.add(c)
                 continue
             nvalid = 0
-            for vc, sample in vcs:
+            for nvc, (vc, sample) in enumerate(vcs):
                 r = vc.decide()
                 c.queries += 1
                 c.solver_s += vc.time
+                if r == "valid" and tier == "thorough" and nvc == 0:
+                    # one VC per condition is re-decided by independent solver builds from its SMT-LIB2 text
+                    xc = vc.cross_check()
+                    cs = rep.extra.setdefault("cross_solver", {"agree": 0, "disagree": [], "inconclusive": 0})
+                    if "sat" in xc.values():
+                        cs["disagree"].append((form.name, vc.name, xc))
+                        c.detail += " %s: z3 5.1 says valid but %r;" % (vc.name, xc)
+                        continue
+                    cs["agree" if set(xc.values()) == {"unsat"} else "inconclusive"] += 1
                 if r == "valid":
                     nvalid += 1
                     continue
